@@ -17,6 +17,22 @@ fn leak_labels(ls: &[(String, String)]) -> &'static [Label] {
     let v: Vec<Label> = ls.iter().map(|(k, v)| Label::from_static_parts(leak(k), leak(v))).collect();
     Box::leak(v.into_boxed_slice())
 }
+/// Static strings that *alias*: within a category (0 name, 1 label name, 2 label value) every string that is a
+/// prefix of the category's base text is a sub-slice of that one static, so that e.g. "", "a" and "ab" start at the
+/// same address and differ only in length (what `&NAME[..n]` / `strip_suffix` on a static gives a caller).
+fn alias(cat: usize, s: &str) -> &'static str {
+    static BASES: [&str; 3] = ["ab", "kk", "xy"];
+    let b: &'static str = BASES[cat];
+    if b.starts_with(s) {
+        &b[..s.len()]
+    } else {
+        leak(s)
+    }
+}
+fn alias_labels(ls: &[(String, String)]) -> &'static [Label] {
+    let v: Vec<Label> = ls.iter().map(|(k, v)| Label::from_static_parts(alias(1, k), alias(2, v))).collect();
+    Box::leak(v.into_boxed_slice())
+}
 fn owned_labels(ls: &[(String, String)]) -> Vec<Label> {
     ls.iter().map(|(k, v)| Label::new(k.clone(), v.clone())).collect()
 }
@@ -71,6 +87,7 @@ fn build_all(a: &AKey) -> Vec<(String, Key)> {
     out.push(("from_parts(name,Iter<Label>)".into(), Key::from_parts(name.clone(), owned_labels(ls).iter())));
     out.push(("from_parts(name,&[(k,v)])".into(), Key::from_parts(name.clone(), &ls.iter().map(|(k, v)| (k.clone(), v.clone())).collect::<Vec<_>>()[..])));
     out.push(("from_static_parts".into(), Key::from_static_parts(leak(name), leak_labels(ls))));
+    out.push(("from_static_parts(aliasing sub-slices)".into(), Key::from_static_parts(alias(0, name), alias_labels(ls))));
     out.push(("from_static_labels".into(), Key::from_static_labels(name.clone(), leak_labels(ls))));
     out.push(("From<(N,L)>".into(), Key::from((name.clone(), owned_labels(ls)))));
     if ls.is_empty() {
@@ -107,7 +124,7 @@ fn build_all(a: &AKey) -> Vec<(String, Key)> {
 }
 
 fn universe(thorough: bool) -> Vec<AKey> {
-    let names = ["", "a", "é"];
+    let names = ["", "a", "ab", "é"];
     let vals: &[&str] = if thorough { &["", "x", "y"] } else { &["", "x"] };
     let mut labels: Vec<(String, String)> = Vec::new();
     for k in ["k", "l"] {
@@ -195,7 +212,7 @@ fn e3(ctx: &Ctx, res: &mut PartResult, which: &str) {
         res.sample(json!({"abstract_key": uni[37], "paths": build_all(&uni[37]).iter().map(|p| p.0.clone()).collect::<Vec<_>>()}));
     } else if which == "pairs" {
         // relational laws over all ordered pairs, two representatives per abstract key
-        let reps: Vec<(usize, Key)> = uni.iter().enumerate().flat_map(|(i, a)| vec![(i, Key::from_parts(a.0.clone(), owned_labels(&a.1))), (i, Key::from_static_parts(leak(&a.0), leak_labels(&a.1)))]).collect();
+        let reps: Vec<(usize, Key)> = uni.iter().enumerate().flat_map(|(i, a)| vec![(i, Key::from_parts(a.0.clone(), owned_labels(&a.1))), (i, Key::from_static_parts(alias(0, &a.0), alias_labels(&a.1)))]).collect();
         let streams: Vec<Vec<u8>> = reps.iter().map(|(_, k)| stream(k)).collect();
         // canonical class for keys with pairwise distinct label names: sorted label list
         let canon: Vec<Option<(String, Vec<(String, String)>)>> = uni.iter().map(|a| if distinct_names(a) { let mut l = a.1.clone(); l.sort(); Some((a.0.clone(), l)) } else { None }).collect();
